@@ -466,6 +466,20 @@ def run_case(pid, p, rng, res, spec, tier):
                 same = c == base
             if not same:
                 viol(res, pid, year, name.split(':')[0], 'outcome differs from the natural order: ' + c05._diff(base, c), p, name, spec)
+        # a session the user breaks off after k answers, against a run that finds exactly those k answers in the file and has
+        # nobody to ask: the same lines are computed, the same inputs reported missing, the same lines reported waiting
+        nprompts = len(tv.prompts)
+        if out.exc is None and nprompts > 2:
+            for k_ in sorted({1, rng.randint(1, nprompts - 1), rng.randint(1, nprompts - 1)}):
+                oi, tvi, _ = traced(fresh(), refuse_from=k_)
+                if oi.exc is not None:
+                    continue
+                of, tvf, _ = traced(fresh(), file_map=dict(oi.final_inputs), refuse_from=0)
+                res.evaluations += 2
+                res.count('interrupted_sessions_compared_with_file_runs')
+                ci, cf = c05.canon(oi, tvi), c05.canon(of, tvf)
+                if ci[0:2] + ci[5:] != cf[0:2] + cf[5:] or {k__ for k__, _ in ci[3]} != {k__ for k__, _ in cf[3]}:
+                    viol(res, pid, year, 'interrupted-vs-file', f'a session broken off after {k_} answers and a run reading those {k_} answers from the file differ: ' + c05._diff(ci, cf), p, f'interrupted:{k_}', spec)
         if len(seqs) > 1:
             res.count('cases_with_distinct_orders')
         for s in seqs:
